@@ -36,6 +36,7 @@ class Ctx:
         self.instances = {}        # rule -> count of matched instances
         self.notes = {}
         self.assumptions = []
+        self.scenario = ""             # label of the alternative scenario being analysed ("" = generic run)
         self.t0 = time.time()
 
     @property
@@ -51,8 +52,17 @@ class Ctx:
     def touch(self, fi):
         self.analysed.add(fi.where if hasattr(fi, "where") else str(fi))
 
-    def ob(self, rule, instance, ok, message="", where=None, construct=None, loc=None, detail=None, sample=False):
-        """Record one obligation. instance: short stable description of the checked construct."""
+    def ob(self, rule, instance, ok, message="", where=None, construct=None, loc=None, detail=None, sample=False,
+           generic_only=False):
+        """Record one obligation. instance: short stable description of the checked construct.
+        generic_only: the obligation speaks about the structure of the result on GENERIC input (e.g. "every component
+        occurs"); it is skipped in alternative scenarios that specialise input symbols to zero."""
+        if self.scenario:
+            if generic_only and self.scenario.startswith("zero"):
+                return True
+            instance = f"{instance} [scenario {self.scenario}]"
+            if not ok:
+                message = f"{message} [in the alternative scenario {self.scenario}]"
         self.obligations.append({"rule": rule, "instance": instance, "ok": bool(ok)})
         self.instances[rule] = self.instances.get(rule, 0) + 1
         if sample or (len(self.samples) < 12 and not any(s["rule"] == rule for s in self.samples)):
@@ -82,6 +92,7 @@ def _par_worker(i):
     func, items, base = _PAR["job"]
     sub = Ctx(base.prop, base.tier, base.root, base.seed, 1)
     sub._program = base._program
+    sub.scenario = base.scenario
     try:
         func(sub, items[i])
     except AnalysisError as e:
@@ -91,7 +102,9 @@ def _par_worker(i):
         return ("err", f"{type(e).__name__}: {e}\n{traceback.format_exc()[-1500:]}")
     fs = [(f.prop, f.rule, f.where, f.construct, f.message, f.loc, None if f.detail is None else str(f.detail)[:800])
           for f in sub.findings]
-    return ("ok", sub.obligations, fs, sub.samples, sorted(sub.analysed), sub.instances, sub.notes, sub.assumptions)
+    from .scenario import SCEN
+    return ("ok", sub.obligations, fs, sub.samples, sorted(sub.analysed), sub.instances, sub.notes, sub.assumptions,
+            list(SCEN.alts), SCEN.decisions)
 
 
 def parallel(ctx, func, items, jobs=None):
@@ -116,7 +129,12 @@ def parallel(ctx, func, items, jobs=None):
             raise AnalysisError(r[1])
         if r[0] == "err":
             raise AnalysisError("worker failed: " + r[1])
-        _, obs, fs, samples, analysed, instances, notes, assumptions = r
+        _, obs, fs, samples, analysed, instances, notes, assumptions, alts, ndec = r
+        from .scenario import SCEN
+        for a_ in alts:
+            if a_ not in SCEN.alts:
+                SCEN.alts.append(a_)
+        SCEN.decisions += ndec if jobs > 1 else 0
         ctx.obligations.extend(obs)
         for f in fs:
             ctx.findings.append(Finding(*f))
